@@ -1110,6 +1110,20 @@ class SpecLib:
             return VInt(v.t[0])
         B_["ord"] = b_ord
 
+        def b_hash(ex, a, kw):
+            # hash(str): an uninterpreted function of the text (equal texts hash alike; nothing else is known)
+            v = a[0]
+            if isinstance(v, VOpt):
+                v = ex.deopt(v)
+            if not (isinstance(v, VSeq) and v.kind in ("str", "bytes")):
+                raise Unsupported("hash(%r)" % (v,))
+            key = ("hash", v.kind)
+            if key not in self._slice_fns:
+                self._slice_fns[key] = z3.Function("py_hash_%s" % v.kind, SeqI, I)
+            self.use("hash(str): uninterpreted function of the text")
+            return VInt(self._slice_fns[key](v.t))
+        B_["hash"] = b_hash
+
         def b_iter(ex, a, kw):
             r = self.make_iter(ex, a[0])
             if isinstance(r, list):
